@@ -21,6 +21,7 @@ pub struct Minimizer {
     watchdog: u64,
     /// stop shrinking (keep the best so far) after this instant
     deadline: std::time::Instant,
+    best: Option<(usize, usize, String)>,
 }
 
 fn replay_signature(exe: &Path, file: &Path, watchdog: u64) -> Result<(Option<String>, String), String> {
@@ -76,6 +77,7 @@ impl Minimizer {
             candidates: 0,
             watchdog,
             deadline: std::time::Instant::now() + std::time::Duration::from_secs(budget_secs),
+            best: None,
         })
     }
 
@@ -85,10 +87,38 @@ impl Minimizer {
         Ok(replay_signature(&self.exe, &self.tmp, self.watchdog)?.0)
     }
 
+    /// Well-founded measure (steps, text length, text): a candidate is only
+    /// ever accepted if it is strictly smaller, so minimisation terminates.
+    fn measure(s: &Session) -> (usize, usize, String) {
+        let t = s
+            .plans
+            .iter()
+            .map(|p| {
+                let mut q = p.clone();
+                q.note.clear();
+                q.to_text()
+            })
+            .collect::<String>();
+        (s.plans.iter().map(|p| p.steps.len()).sum(), t.len(), t)
+    }
+
     fn fails(&mut self, s: &Session) -> bool {
         if std::time::Instant::now() > self.deadline {
             return false; // out of budget: no further shrinking
         }
+        if let Some(best) = &self.best {
+            if Self::measure(s) >= *best {
+                return false; // not simpler than what we already have
+            }
+        }
+        let r = self.fails_raw(s);
+        if r {
+            self.best = Some(Self::measure(s));
+        }
+        r
+    }
+
+    fn fails_raw(&mut self, s: &Session) -> bool {
         matches!(self.signature_of(s), Ok(Some(sig)) if sig == self.target)
     }
 
@@ -143,6 +173,7 @@ impl Minimizer {
             self.watchdog = 1;
         }
         self.target = sig;
+        self.best = Some(Self::measure(orig));
         let mut cur = orig.clone();
 
         // 1. whole runs (the last one is where the violation showed)
@@ -251,9 +282,10 @@ impl Minimizer {
 
             // 3. simplification of what is left
             for pi in 0..cur.plans.len() {
-                for (field, val) in [(0, false), (1, false), (2, false)] {
+                for (field, val) in [(0, false), (1, false), (2, false), (3, false)] {
                     let mut cand = cur.clone();
                     match field {
+                        3 => cand.plans[pi].ref_process = val,
                         0 => cand.plans[pi].ref_per_event = val,
                         1 => cand.plans[pi].root_probe_early = val,
                         _ => cand.plans[pi].root_api_builder = val,
@@ -264,6 +296,23 @@ impl Minimizer {
                 }
                 for si in 0..cur.plans[pi].steps.len() {
                     let st = cur.plans[pi].steps[si].clone();
+                    if !st.yields.is_empty() {
+                        // fewer mid-operation pre-emptions
+                        let mut cand = cur.clone();
+                        cand.plans[pi].steps[si].yields.clear();
+                        if self.fails(&cand) {
+                            cur = cand;
+                        } else if st.yields.len() > 1 {
+                            for k in 0..st.yields.len() {
+                                let mut cand = cur.clone();
+                                cand.plans[pi].steps[si].yields = vec![st.yields[k]];
+                                if self.fails(&cand) {
+                                    cur = cand;
+                                    break;
+                                }
+                            }
+                        }
+                    }
                     let mut alts: Vec<Action> = Vec::new();
                     match &st.action {
                         Action::Op(op) | Action::Die(op) => {
@@ -299,6 +348,17 @@ impl Minimizer {
                         }
                         Action::Exit { probe_late: true } => {
                             alts.push(Action::Exit { probe_late: false });
+                        }
+                        Action::Churn { n, m } => {
+                            // fewer short-lived threads: 1, 2, 4, … then n-1
+                            let mut k = 1u16;
+                            while k < *n {
+                                alts.push(Action::Churn { n: k, m: *m });
+                                k = k.saturating_mul(2);
+                            }
+                            if *n > 1 {
+                                alts.push(Action::Churn { n: *n - 1, m: *m });
+                            }
                         }
                         _ => {}
                     }
